@@ -63,3 +63,501 @@ Proof.
     rewrite H1, H2. cbn [app].
     apply opt_bs_eqb_spec in H3, H4. now rewrite H3, H4.
 Qed.
+
+(* ================================================================== *)
+(* totality of the two parsers on arbitrary bytes                       *)
+From Coq Require Import ZifyBool ZifyN ZifyNat.
+From HV Require Import Text.LinuxParseListProofs.
+
+(* the block handed to the parsers always holds a C string *)
+Lemma block_cstring c : exists n, cstring (c ++ [0]) n /\ n <= len c.
+Proof.
+  induction c as [|b t IH].
+  - exists 0. split; [|unfold len; simpl; lia]. split; [reflexivity|intros k Hk; lia].
+  - destruct (N.eq_dec b 0) as [->|Hb].
+    + exists 0. split; [|lia]. split; [reflexivity|intros k Hk; lia].
+    + destruct IH as [n [[H0 Hk] Hn]]. exists (N.succ n). split; [|rewrite len_cons; lia].
+      split.
+      * cbn [app]. now rewrite rd_cons_succ.
+      * intros k Hlt. cbn [app]. destruct (N.eq_dec k 0) as [->|Hk0].
+        -- exists b. split; [reflexivity|exact Hb].
+        -- replace k with (N.succ (N.pred k)) by lia. rewrite rd_cons_succ. apply Hk. lia.
+Qed.
+
+Lemma mask_loop_total s n : cstring s n -> forall fuel i maps, i <= n ->
+  (N.to_nat (n - i) < fuel)%nat -> exists m, mask_loop fuel s i maps = Ok (Some m).
+Proof.
+  intros Hs. induction fuel as [|f IH]; intros i maps Hi Hf; [lia|].
+  cbn [mask_loop]. unfold scan_lx.
+  destruct (strtoul_ok s n i 16 Hs Hi) as [v [e [E [He Hv]]]]. rewrite E. cbn [bind snd fst].
+  destruct (e =? i); [eexists; reflexivity|].
+  destruct (strchr_ok s n i COMMA Hs Hi) as [r [Er Hr]]. rewrite Er. cbn [bind].
+  destruct r as [j|]; [|eexists; reflexivity].
+  destruct Hr as [Hj [Hc _]].
+  assert (j <> n). { intros ->. destruct Hs as [H0 _]. rewrite H0 in Hc. discriminate. }
+  destruct ((v =? 0) && match maps with [] => true | _ => false end); apply IH; lia.
+Qed.
+
+(* totality on arbitrary bytes (any list N, including NUL bytes and values >= 256) *)
+Lemma cpumask_parse_total : forall c, exists s, cpumask_parse c = Parsed s.
+Proof.
+  intros c. unfold cpumask_parse, block.
+  destruct (block_cstring c) as [n [Hs Hn]].
+  destruct (mask_loop_total _ n Hs (S (List.length c)) 0 []) as [m Hm]; [lia|unfold len in Hn; lia|].
+  rewrite Hm. eexists; reflexivity.
+Qed.
+
+(* ---- C strings seen from an offset: byte n is the first NUL at or after i ---- *)
+Definition cstr_from (s : list N) (i n : N) : Prop :=
+  i <= n /\ rd s n = Some 0 /\ forall k, i <= k < n -> exists b, rd s k = Some b /\ b <> 0.
+
+Lemma cstr_from_weaken s i i' n : cstr_from s i n -> i <= i' <= n -> cstr_from s i' n.
+Proof.
+  intros [Hi [H0 Hk]] Hi'. split; [lia|]. split; [exact H0|]. intros k Hlt. apply Hk. lia.
+Qed.
+
+Lemma cstr_from_rd s i n k : cstr_from s i n -> i <= k <= n ->
+  exists b, rd s k = Some b /\ (b = 0 <-> k = n).
+Proof.
+  intros [Hi [H0 Hlt]] Hk. destruct (N.eq_dec k n) as [->|Hne].
+  - exists 0. tauto.
+  - destruct (Hlt k) as [b [Hb Nz]]; [lia|]. exists b. tauto.
+Qed.
+
+Lemma cstr_from_len s i n : cstr_from s i n -> n < len s.
+Proof. intros [_ [H0 _]]. now apply rd_some_lt in H0. Qed.
+
+Lemma scan_while_ok_from p s n : p 0 = false -> forall i, cstr_from s i n ->
+  exists j, scan_while p s i = Ok j /\ i <= j <= n.
+Proof.
+  intros P0 i Hs.
+  remember (N.to_nat (n - i)) as d eqn:Ed. revert i Hs Ed.
+  induction d as [|d IH]; intros i Hs Ed; pose proof Hs as [Hi [H0 Hk]].
+  - assert (i = n) by lia. subst i. exists n. split; [|lia].
+    apply scan_while_spec. split; [lia|]. split; [exists 0; now split|]. intros m Hm; lia.
+  - destruct (Hk i) as [b [Hb Nz]]; [lia|].
+    destruct (p b) eqn:Pb.
+    + destruct (IH (N.succ i)) as [j [Hj Hr]];
+        [apply (cstr_from_weaken s i); [assumption|lia]|lia|].
+      exists j. split; [|lia].
+      apply scan_while_spec in Hj. destruct Hj as [Hij [Hex Hm]].
+      apply scan_while_spec. split; [lia|]. split; [exact Hex|].
+      intros m Hlt. destruct (N.eq_dec m i) as [->|Hne]; [eauto|]. apply Hm. lia.
+    + exists i. split; [|lia]. apply scan_while_spec. split; [lia|]. split; [eauto|].
+      intros m Hm; lia.
+Qed.
+
+(* strto_core_ok from an offset (same proof as Strto.strto_core_ok) *)
+Lemma strto_core_ok_from s n i base : cstr_from s i n ->
+  exists r, strto_core s i base = Ok r /\ i <= sr_end r <= n.
+Proof.
+  intros Hs. pose proof Hs as [Hi _]. unfold strto_core.
+  destruct (scan_while_ok_from isspace s n isspace_0 i Hs) as [j0 [Hj0 Hr0]]. rewrite Hj0. cbn [bind].
+  assert (Rd : forall k, i <= k <= n -> exists b, rd s k = Some b /\ (b = 0 <-> k = n)).
+  { intros k Hk. now apply (cstr_from_rd s i). }
+  destruct (Rd j0) as [c [Hc Zc]]; [lia|]. unfold rdr at 1. rewrite Hc. cbn [bind].
+  set (j1 := if (c =? 45) || (c =? 43) then N.succ j0 else j0).
+  assert (Hj1 : j0 <= j1 <= n).
+  { unfold j1. destruct ((c =? 45) || (c =? 43)) eqn:E; [|lia].
+    assert (c <> 0). { intros ->. discriminate. }
+    assert (j0 <> n) by tauto. lia. }
+  destruct (Rd j1) as [c0 [Hc0 Zc0]]; [lia|]. unfold rdr at 1. rewrite Hc0. cbn [bind].
+  assert (P : exists prefixed j2 b,
+     (if c0 =? 48 then
+       if (base =? 0) || (base =? 16) then
+         let* c1 := rdr s (N.succ j1) in
+         if toupper c1 =? 88 then Ok (true, j1 + 2, 16)
+         else Ok (false, j1, if base =? 0 then 8 else base)
+       else Ok (false, j1, base)
+     else Ok (false, j1, if base =? 0 then 10 else base)) = Ok (prefixed, j2, b)
+     /\ j1 <= j2 <= n /\ (prefixed = true -> j2 = j1 + 2)).
+  { destruct (N.eqb_spec c0 48) as [->|Hne].
+    - assert (j1 <> n). { intros E. apply Zc0 in E. discriminate. }
+      destruct ((base =? 0) || (base =? 16)).
+      + destruct (Rd (N.succ j1)) as [c1 [Hc1 Zc1]]; [lia|]. unfold rdr. rewrite Hc1. cbn [bind].
+        destruct (N.eqb_spec (toupper c1) 88) as [E|E].
+        * do 3 eexists. split; [reflexivity|]. split; [|auto].
+          assert (c1 <> 0). { intros ->. discriminate. }
+          assert (N.succ j1 <> n) by tauto. lia.
+        * do 3 eexists. split; [reflexivity|]. split; [lia|discriminate].
+      + do 3 eexists. split; [reflexivity|]. split; [lia|discriminate].
+    - do 3 eexists. split; [reflexivity|]. split; [lia|discriminate]. }
+  destruct P as [prefixed [j2 [b [-> [Hj2 Hp]]]]]. cbn [bind].
+  destruct (scan_while_ok_from (is_digit_in b) s n (is_digit_in_0 b) j2) as [je [Hje Hre]];
+    [apply (cstr_from_weaken s i); [assumption|lia]|].
+  rewrite Hje. cbn [bind].
+  destruct (je =? j2); eexists; (split; [reflexivity|]); cbn [sr_end]; [|lia].
+  destruct prefixed; [|lia]. specialize (Hp eq_refl). lia.
+Qed.
+
+Lemma strtoul_ok_from s n i base : cstr_from s i n ->
+  exists v e, strtoul s i base = Ok (v, e) /\ i <= e <= n.
+Proof.
+  intros Hs. unfold strtoul.
+  destruct (strto_core_ok_from s n i base Hs) as [r [-> Hr]]. cbn [bind].
+  do 2 eexists. split; [reflexivity|exact Hr].
+Qed.
+
+Lemma strchr_ok_from s n i c : cstr_from s i n -> c <> 0 ->
+  exists r, strchr s i c = Ok r /\
+    match r with Some j => i <= j < n /\ rd s j = Some c | None => True end.
+Proof.
+  intros Hs Hc. unfold strchr.
+  destruct (scan_while_ok_from (fun b => negb (b =? c) && negb (b =? 0)) s n) with (i := i)
+    as [j [Hj Hr]]; [simpl; now rewrite andb_false_r|exact Hs|].
+  rewrite Hj. cbn [bind]. apply scan_while_spec in Hj. destruct Hj as [_ [[b [Hb Pb]] Hm]].
+  unfold rdr. rewrite Hb. cbn [bind]. eexists. split; [reflexivity|].
+  destruct (N.eqb_spec b c) as [->|Hne]; [|exact I].
+  split; [|exact Hb]. destruct Hs as [_ [H0 _]].
+  assert (j <> n) by (intros ->; congruence). lia.
+Qed.
+
+(* *p = 0 inside the block *)
+Lemma upd_split s j b c : rd s j = Some c ->
+  exists p rest, s = p ++ c :: rest /\ len p = j /\ upd s j b = p ++ b :: rest.
+Proof.
+  intros H. unfold rd in H. destruct (nth_error_split _ _ H) as [p [rest [E L]]].
+  exists p, rest. split; [exact E|]. assert (Lp : len p = j) by (unfold len; lia).
+  split; [exact Lp|]. rewrite E, <- Lp. apply upd_app.
+Qed.
+
+Lemma len_upd s j b : j < len s -> len (upd s j b) = len s.
+Proof.
+  intros H. destruct (rd_lt_some s j H) as [c Hc].
+  destruct (upd_split s j b c Hc) as [p [rest [E [L U]]]]. rewrite U, E, !len_app, !len_cons. reflexivity.
+Qed.
+
+Lemma rd_upd_same s j b : j < len s -> rd (upd s j b) j = Some b.
+Proof.
+  intros H. destruct (rd_lt_some s j H) as [c Hc].
+  destruct (upd_split s j b c Hc) as [p [rest [E [L U]]]]. rewrite U, <- L. apply rd_app_mid.
+Qed.
+
+Lemma rd_upd_other s j b k : j < len s -> k <> j -> rd (upd s j b) k = rd s k.
+Proof.
+  intros H Hk. destruct (rd_lt_some s j H) as [c Hc].
+  destruct (upd_split s j b c Hc) as [p [rest [E [L U]]]]. rewrite U, E.
+  destruct (N.lt_ge_cases k (len p)) as [Hlt|Hge].
+  - now rewrite !rd_app_l.
+  - rewrite !rd_app_r by assumption.
+    replace (k - len p) with (N.succ (N.pred (k - len p))) by lia. now rewrite !rd_cons_succ.
+Qed.
+
+Lemma cpulist_loop_total : forall fuel s current p set,
+  (exists n, cstr_from s current n) -> (N.to_nat (len s - current) <= fuel)%nat ->
+  cpulist_loop fuel s current p set = SignedOverflow \/
+  exists r, cpulist_loop fuel s current p set = Parsed r.
+Proof.
+  induction fuel as [|f IH]; intros s current p set0 [n Hs] Hf.
+  { pose proof (cstr_from_len _ _ _ Hs). destruct Hs as [Hi _]. lia. }
+  cbn [cpulist_loop].
+  destruct (strchr_ok_from s n current COMMA Hs) as [comma [Ec Hcomma]]; [discriminate|].
+  rewrite Ec.
+  pose proof (cstr_from_len _ _ _ Hs) as Hlen. pose proof Hs as [Hi [H0 Hk]].
+  set (s1 := match comma with Some j => upd s j 0 | None => s end).
+  (* the string strtoul sees from [current] *)
+  assert (Hs1 : exists n1, cstr_from s1 current n1 /\
+            match comma with Some j => n1 = j | None => True end).
+  { destruct comma as [j|]; [|exists n; split; [exact Hs|exact I]].
+    destruct Hcomma as [Hj Hc]. exists j. split; [|reflexivity]. unfold s1.
+    split; [lia|]. split; [apply rd_upd_same; lia|].
+    intros k Hlt. rewrite rd_upd_other by lia. apply Hk. lia. }
+  destruct Hs1 as [n1 [Hs1 Hn1]].
+  assert (Hlen1 : len s1 = len s).
+  { unfold s1. destruct comma as [j|]; [|reflexivity]. apply len_upd. destruct Hcomma. lia. }
+  destruct (strtoul_ok_from s1 n1 current 0 Hs1) as [v [tmp [E1 Htmp]]]. rewrite E1.
+  destruct (cstr_from_rd s1 current n1 tmp Hs1 Htmp) as [c [Hc Zc]].
+  unfold rdr. rewrite Hc.
+  assert (Hnl : exists nl, (if c =? DASH
+             then match strtoul s1 (N.succ tmp) 0 with Oob => None | Ok (v2, _) => Some (to_int v2) end
+             else Some (to_int v)) = Some nl).
+  { destruct (N.eqb_spec c DASH) as [->|_]; [|eexists; reflexivity].
+    assert (tmp <> n1). { intros E. apply Zc in E. discriminate. }
+    destruct (strtoul_ok_from s1 n1 (N.succ tmp) 0) as [v2 [e2 [E2 _]]];
+      [apply (cstr_from_weaken s1 current); [assumption|lia]|].
+    rewrite E2. eexists; reflexivity. }
+  destruct Hnl as [nl ->].
+  destruct ((p =? INT_MAX)%Z || (to_int v =? INT_MIN)%Z); [now left|].
+  destruct comma as [j|].
+  - destruct Hcomma as [Hj Hcj]. apply IH.
+    + exists n. unfold s1. split; [lia|]. split; [rewrite rd_upd_other by lia; exact H0|].
+      intros k Hlt. rewrite rd_upd_other by lia. apply Hk. lia.
+    + rewrite Hlen1. lia.
+  - destruct (nl =? INT_MAX)%Z; [now left|right; eexists; reflexivity].
+Qed.
+
+Lemma cpulist_parse_total : forall c,
+  cpulist_parse c = SignedOverflow \/ exists s, cpulist_parse c = Parsed s.
+Proof.
+  intros c. unfold cpulist_parse, block. apply cpulist_loop_total.
+  - destruct (block_cstring c) as [n [[H0 Hk] Hn]]. exists n.
+    split; [lia|]. split; [exact H0|]. intros k Hlt. apply Hk. lia.
+  - rewrite len_app. unfold len. cbn [List.length]. lia.
+Qed.
+
+(* ================================================================== *)
+(* parse o print = id for the cpumask format                            *)
+
+(* ---- the hexadecimal printer ---- *)
+Lemma hexc_props d : d < 16 ->
+  is_digit_in 16 (hexc d) = true /\ digit_of (hexc d) = d /\
+  negb (hexc d =? COMMA) && negb (hexc d =? 0) = true /\ toupper (hexc d) <> 88.
+Proof.
+  intros H.
+  assert (E : d = 0 \/ d = 1 \/ d = 2 \/ d = 3 \/ d = 4 \/ d = 5 \/ d = 6 \/ d = 7 \/
+              d = 8 \/ d = 9 \/ d = 10 \/ d = 11 \/ d = 12 \/ d = 13 \/ d = 14 \/ d = 15) by lia.
+  repeat (destruct E as [->|E]); [..|subst d];
+    (repeat split; try reflexivity; intros X; vm_compute in X; discriminate X).
+Qed.
+
+Lemma hex_fixed_Forall (P : N -> Prop) : (forall d, d < 16 -> P (hexc d)) ->
+  forall k v, Forall P (hex_fixed k v).
+Proof.
+  intros HP. induction k as [|k IH]; intros v; cbn [hex_fixed]; [constructor|].
+  apply Forall_app. split; [apply IH|]. constructor; [|constructor].
+  apply HP. apply N.mod_lt. lia.
+Qed.
+
+Lemma hex_fixed_length k : forall v, List.length (hex_fixed k v) = k.
+Proof.
+  induction k as [|k IH]; intros v; cbn [hex_fixed]; [reflexivity|].
+  rewrite app_length, IH. cbn [List.length]. lia.
+Qed.
+
+Lemma hex_fixed_val k : forall v, digits_val 16 (hex_fixed k v) = v mod 16 ^ N.of_nat k.
+Proof.
+  induction k as [|k IH]; intros v.
+  - cbn [hex_fixed]. change (N.of_nat 0) with 0. rewrite N.pow_0_r, N.mod_1_r. reflexivity.
+  - cbn [hex_fixed]. rewrite digits_val_app, IH.
+    assert (Hm : v mod 16 < 16) by (apply N.mod_lt; lia).
+    destruct (hexc_props _ Hm) as [_ [-> _]].
+    rewrite Nat2N.inj_succ, N.pow_succ_r'.
+    assert (P : 16 ^ N.of_nat k <> 0) by (apply N.pow_nonzero; lia).
+    rewrite N.mod_mul_r by (try exact P; lia). lia.
+Qed.
+
+Lemma print_chunk_len w : len (print_chunk w) = 8.
+Proof. unfold len, print_chunk. now rewrite hex_fixed_length. Qed.
+
+Lemma print_chunk_scan w :
+  Forall (fun b => negb (b =? COMMA) && negb (b =? 0) = true) (print_chunk w).
+Proof. apply hex_fixed_Forall. intros d Hd. now destruct (hexc_props d Hd) as [_ [_ [H _]]]. Qed.
+
+(* sscanf("%lx") reads one printed chunk followed by [t] (comma or newline) *)
+Lemma scan_lx_chunk pre w t post : is_digit_in 16 t = false -> w < TWO32 ->
+  scan_lx (pre ++ print_chunk w ++ t :: post) (len pre) = Ok (Some w).
+Proof.
+  intros Ht Hw. unfold scan_lx.
+  assert (V : digits_val 16 (print_chunk w) = w).
+  { unfold print_chunk. rewrite hex_fixed_val.
+    replace (16 ^ N.of_nat 8) with TWO32 by reflexivity. now apply N.mod_small. }
+  assert (C : strto_core (pre ++ print_chunk w ++ t :: post) (len pre) 16
+              = Ok {| sr_neg := false; sr_mag := digits_val 16 (print_chunk w);
+                      sr_end := len pre + len (print_chunk w) |}).
+  { pose proof (hex_fixed_length 8 w) as L.
+    pose proof (hex_fixed_Forall (fun b => toupper b <> 88)) as X.
+    specialize (X (fun d Hd => proj2 (proj2 (proj2 (hexc_props d Hd)))) 8%nat w).
+    apply strto_core_plain.
+    - discriminate.
+    - unfold print_chunk. intros E. rewrite E in L. discriminate.
+    - apply hex_fixed_Forall. intros d Hd. now destruct (hexc_props d Hd).
+    - exact Ht.
+    - intros _. left. unfold print_chunk.
+      destruct (hex_fixed 8 w) as [|d0 [|d1 tl]]; [discriminate|discriminate|].
+      cbn [app nth]. inversion X as [|? ? _ X1]; subst. inversion X1; subst. assumption. }
+  rewrite (strtoul_of_core _ _ _ _ C); cbn [sr_neg sr_mag sr_end];
+    [|reflexivity|rewrite V; unfold Strto.ULONG_MAX, TWO32 in *; lia].
+  cbn [bind fst snd]. rewrite V, print_chunk_len.
+  destruct (N.eqb_spec (len pre + 8) (len pre)); [lia|reflexivity].
+Qed.
+
+Lemma strchr_chunk_mid pre w rest :
+  strchr (pre ++ print_chunk w ++ COMMA :: rest) (len pre) COMMA = Ok (Some (len pre + 8)).
+Proof.
+  unfold strchr. rewrite scan_while_app; [|apply print_chunk_scan|reflexivity].
+  cbn [bind]. unfold rdr. rewrite rd_app_mid2. cbn [bind]. now rewrite print_chunk_len.
+Qed.
+
+Lemma strchr_chunk_last pre w :
+  strchr (pre ++ print_chunk w ++ [NL; 0]) (len pre) COMMA = Ok None.
+Proof.
+  unfold strchr.
+  replace (pre ++ print_chunk w ++ [NL; 0]) with (pre ++ (print_chunk w ++ [NL]) ++ 0 :: [])
+    by (now rewrite <- app_assoc).
+  rewrite scan_while_app.
+  - cbn [bind]. unfold rdr. rewrite rd_app_mid2. reflexivity.
+  - apply Forall_app. split; [apply print_chunk_scan|repeat constructor].
+  - reflexivity.
+Qed.
+
+(* ---- the text as a list of chunk values, most significant first ---- *)
+Fixpoint join_chunks (ws : list N) : list N :=
+  match ws with
+  | [] => []
+  | [w] => print_chunk w
+  | w :: tl => print_chunk w ++ [COMMA] ++ join_chunks tl
+  end.
+Fixpoint chunk_list (n : nat) (f : N) : list N :=
+  match n with
+  | O => []
+  | S k => (f / TWO32 ^ N.of_nat k) mod TWO32 :: chunk_list k f
+  end.
+
+Lemma join_chunks_cons w tl : tl <> [] ->
+  join_chunks (w :: tl) = print_chunk w ++ COMMA :: join_chunks tl.
+Proof. destruct tl; [congruence|reflexivity]. Qed.
+
+Lemma print_chunks_join n f : print_chunks n f = join_chunks (chunk_list n f).
+Proof.
+  induction n as [|k IH]; [reflexivity|].
+  destruct k as [|k'].
+  - cbn [print_chunks chunk_list join_chunks]. change (N.of_nat 0) with 0.
+    now rewrite N.pow_0_r, N.div_1_r.
+  - change (print_chunks (S (S k')) f) with
+      (print_chunk ((f / TWO32 ^ N.of_nat (S k')) mod TWO32) ++ [COMMA] ++ print_chunks (S k') f).
+    rewrite IH.
+    change (chunk_list (S (S k')) f) with
+      ((f / TWO32 ^ N.of_nat (S k')) mod TWO32 :: chunk_list (S k') f).
+    rewrite join_chunks_cons; [reflexivity|]. cbn [chunk_list]. discriminate.
+Qed.
+
+Lemma chunk_list_length n f : List.length (chunk_list n f) = n.
+Proof. induction n as [|k IH]; cbn [chunk_list List.length]; [reflexivity|now rewrite IH]. Qed.
+
+Lemma chunk_list_bound n f : Forall (fun w => w < TWO32) (chunk_list n f).
+Proof.
+  induction n as [|k IH]; cbn [chunk_list]; constructor; [|exact IH].
+  apply N.mod_lt. discriminate.
+Qed.
+
+Lemma join_chunks_length ws : (List.length ws <= List.length (join_chunks ws))%nat.
+Proof.
+  induction ws as [|w tl IH]; [cbn; lia|].
+  destruct tl as [|w' tl'].
+  - cbn [join_chunks List.length]. unfold print_chunk. rewrite hex_fixed_length. lia.
+  - rewrite join_chunks_cons by discriminate. rewrite app_length.
+    cbn [List.length] in *. lia.
+Qed.
+
+(* ---- values ---- *)
+(* maps[] newest first: the head is the least significant 32-bit chunk *)
+Fixpoint val32 (maps : list N) : N :=
+  match maps with [] => 0 | m :: tl => m + TWO32 * val32 tl end.
+Definition val_of (ws : list N) (acc : N) : N := fold_left (fun a w => a * TWO32 + w) ws acc.
+
+Definition lt32 (w : N) : Prop := w < TWO32.
+
+Lemma mask_loop_chunks : forall ws fuel pre maps,
+  ws <> [] -> (List.length ws <= fuel)%nat -> Forall lt32 ws -> Forall lt32 maps ->
+  exists maps', mask_loop fuel (pre ++ join_chunks ws ++ [NL; 0]) (len pre) maps = Ok (Some maps') /\
+    val32 maps' = val_of ws (val32 maps) /\ Forall lt32 maps'.
+Proof.
+  induction ws as [|w tl IH]; intros fuel pre maps Hne Hfuel Hws Hmaps; [congruence|].
+  destruct fuel as [|f]; [cbn [List.length] in Hfuel; lia|].
+  inversion Hws as [|? ? Hw Htl]; subst.
+  destruct tl as [|w' tl'].
+  - cbn [join_chunks mask_loop]. rewrite scan_lx_chunk by (exact Hw || reflexivity). cbn [bind].
+    rewrite strchr_chunk_last. cbn [bind].
+    eexists. split; [reflexivity|]. split; [|now constructor].
+    unfold val_of. cbn [val32 fold_left]. lia.
+  - set (tl := w' :: tl') in *.
+    assert (Hnt : tl <> []) by discriminate.
+    rewrite join_chunks_cons by exact Hnt.
+    rewrite <- app_assoc, <- app_comm_cons.
+    cbn [mask_loop]. rewrite scan_lx_chunk by (exact Hw || reflexivity). cbn [bind].
+    rewrite strchr_chunk_mid. cbn [bind].
+    replace (pre ++ print_chunk w ++ COMMA :: join_chunks tl ++ [NL; 0])
+      with ((pre ++ print_chunk w ++ [COMMA]) ++ join_chunks tl ++ [NL; 0])
+      by (rewrite <- !app_assoc; reflexivity).
+    replace (N.succ (len pre + 8)) with (len (pre ++ print_chunk w ++ [COMMA]))
+      by (rewrite !len_app, print_chunk_len; change (len [COMMA]) with 1; lia).
+    cbn [List.length] in Hfuel.
+    destruct ((w =? 0) && match maps with [] => true | _ :: _ => false end) eqn:E.
+    + assert (w = 0 /\ maps = []) as [-> ->].
+      { apply andb_true_iff in E as [E1 E2]. apply N.eqb_eq in E1. destruct maps; [auto|discriminate]. }
+      destruct (IH f (pre ++ print_chunk 0 ++ [COMMA]) []) as [maps' [L [V F]]];
+        [exact Hnt|lia|exact Htl|constructor|].
+      exists maps'. split; [exact L|]. split; [|exact F].
+      rewrite V. unfold val_of. cbn [val32 fold_left]. reflexivity.
+    + destruct (IH f (pre ++ print_chunk w ++ [COMMA]) (w :: maps)) as [maps' [L [V F]]];
+        [exact Hnt|lia|exact Htl|now constructor|].
+      exists maps'. split; [exact L|]. split; [|exact F].
+      rewrite V. unfold val_of. cbn [val32 fold_left]. f_equal. lia.
+Qed.
+
+(* the 64-bit words rebuilt from pairs of chunks *)
+Lemma lor_shift a b : a < TWO32 -> b < TWO32 ->
+  N.lor a ((N.shiftl b 32) mod TWO64) = a + TWO32 * b.
+Proof.
+  intros Ha Hb.
+  assert (M : (N.shiftl b 32) mod TWO64 = N.shiftl b 32).
+  { apply N.mod_small. rewrite N.shiftl_mul_pow2. change (2 ^ 32) with TWO32.
+    unfold TWO32, TWO64 in *. lia. }
+  rewrite M.
+  assert (L : N.land a (N.shiftl b 32) = 0).
+  { apply N.bits_inj. intros n. rewrite N.land_spec, N.bits_0.
+    destruct (N.lt_ge_cases n 32) as [Hn|Hn].
+    - rewrite (N.shiftl_spec_low b 32 n Hn). apply andb_false_r.
+    - destruct (N.eq_dec a 0) as [->|Ha0]; [now rewrite N.bits_0|].
+      rewrite (N.bits_above_log2 a n); [reflexivity|].
+      assert (N.log2 a < 32) by (apply N.log2_lt_pow2; [lia|exact Ha]). lia. }
+  rewrite <- (N.lxor_lor _ _ L), <- (N.add_nocarry_lxor _ _ L).
+  rewrite N.shiftl_mul_pow2. change (2 ^ 32) with TWO32. lia.
+Qed.
+
+Lemma words_val : forall l, Forall lt32 l -> N_of_words (words_of_maps l) = val32 l.
+Proof.
+  assert (H : forall n l, (List.length l <= n)%nat -> Forall lt32 l ->
+                          N_of_words (words_of_maps l) = val32 l).
+  { induction n as [|n IH]; intros l Hl HF.
+    - destruct l; [reflexivity|cbn [List.length] in Hl; lia].
+    - destruct l as [|a [|b tl]]; [reflexivity|cbn [words_of_maps N_of_words val32]; lia|].
+      inversion HF as [|? ? Ha HF1]; subst. inversion HF1 as [|? ? Hb HF2]; subst.
+      cbn [words_of_maps N_of_words val32]. rewrite lor_shift by assumption.
+      rewrite IH by (first [exact HF2|cbn [List.length] in Hl; lia]).
+      unfold TWO64, TWO32. lia. }
+  intros l. now apply (H (List.length l)).
+Qed.
+
+Lemma val_of_chunk_list n f : forall acc,
+  val_of (chunk_list n f) acc = acc * TWO32 ^ N.of_nat n + f mod TWO32 ^ N.of_nat n.
+Proof.
+  induction n as [|k IH]; intros acc.
+  - unfold val_of. cbn [chunk_list fold_left]. change (N.of_nat 0) with 0.
+    rewrite N.pow_0_r, N.mod_1_r. lia.
+  - cbn [chunk_list]. unfold val_of. cbn [fold_left]. fold (val_of (chunk_list k f)).
+    rewrite IH. rewrite Nat2N.inj_succ, N.pow_succ_r'.
+    assert (P : TWO32 ^ N.of_nat k <> 0) by (apply N.pow_nonzero; discriminate).
+    rewrite (N.mul_comm TWO32 (TWO32 ^ N.of_nat k)).
+    rewrite (N.mod_mul_r f) by (try exact P; discriminate).
+    set (Q := TWO32 ^ N.of_nat k). set (c := (f / Q) mod TWO32). set (m := f mod Q).
+    clearbody Q c m. lia.
+Qed.
+
+(* parse o print = id for the cpumask format: n >= 1 chunks of 32 bits *)
+Lemma cpumask_parse_print : forall (n : nat) (f : N),
+  (1 <= n)%nat -> f < TWO32 ^ N.of_nat n ->
+  cpumask_parse (print_cpumask n f) = Parsed (bs_of_N f).
+Proof.
+  intros n f Hn Hf. unfold cpumask_parse, print_cpumask, block.
+  rewrite print_chunks_join, <- app_assoc. cbn [app].
+  destruct (mask_loop_chunks (chunk_list n f)
+              (S (List.length (join_chunks (chunk_list n f) ++ [NL]))) [] [])
+    as [maps' [L [V F]]].
+  - intros E. pose proof (chunk_list_length n f) as X. rewrite E in X. cbn in X. lia.
+  - rewrite app_length. pose proof (join_chunks_length (chunk_list n f)). lia.
+  - apply chunk_list_bound.
+  - constructor.
+  - cbn [app] in L. change (len []) with 0 in L. rewrite L. do 2 f_equal.
+    rewrite words_val by exact F. rewrite V. cbn [val32].
+    rewrite val_of_chunk_list. rewrite (N.mod_small f) by exact Hf. lia.
+Qed.
+
+(* the hypotheses are met by a non-trivial mask: bits {0-7, 33, 64} on 3 chunks *)
+Example cpumask_parse_print_ex :
+  (1 <= 3)%nat /\ 18446744082299486463 < TWO32 ^ N.of_nat 3 /\
+  print_cpumask 3 18446744082299486463 =
+    bytes_of_string "00000001,00000002,000000ff" ++ [NL] /\
+  cpumask_parse (bytes_of_string "00000001,00000002,000000ff" ++ [NL])
+    = Parsed (bs_of_N 18446744082299486463).
+Proof. repeat split; try lia; vm_compute; reflexivity. Qed.
